@@ -8,6 +8,7 @@ import (
 	"go/token"
 	"go/types"
 	"math/big"
+	"os"
 	"sort"
 	"strings"
 
@@ -90,7 +91,7 @@ func (c *Canon) termD(v ssa.Value, d int) string {
 	c.stack[v] = true
 	s := c.render(v, d)
 	delete(c.stack, v)
-	if len(s) > 420 {
+	if len(s) > 420 && os.Getenv("VERIF_NODIGEST") == "" {
 		h := sha1.Sum([]byte(s))
 		rs := []rune(s)
 		if len(rs) > 200 {
@@ -354,6 +355,11 @@ func (c *Canon) render(v ssa.Value, d int) string {
 	case *ssa.MultiConvert:
 		return c.termD(v.X, d)
 	case *ssa.Slice:
+		if v.Low == nil && v.High == nil && v.Max == nil {
+			if _, isSlice := v.X.Type().Underlying().(*types.Slice); isSlice {
+				return c.termD(v.X, d) // s[:] of a slice is s
+			}
+		}
 		s := c.termD(v.X, d+1) + "["
 		if v.Low != nil {
 			s += c.termD(v.Low, d+1)
